@@ -15,6 +15,7 @@ package jobs
 //@   prop C10 C08
 //@   safe make slice
 //@   ghost covered int = 0
+//@   ghost startedG int = 0
 //@   ghost sinkOkG bool = false
 //@   ensures [C10:stop-only-when-the-source-page-was-empty-or-untokenized] result == nil && old(keepReading) && !keepReading ==> len(entities) == 0 || tokenOf(continuationToken) == ""
 //@   ensures [C10:keep-reading-while-the-source-has-more] result == nil && old(keepReading) && len(entities) > 0 && tokenOf(continuationToken) != "" ==> keepReading
@@ -25,6 +26,7 @@ package jobs
 //@     assert [C08:token-stored-under-the-job-id] id == job.id
 //@   loop 1
 //@     invariant 0 <= i && i <= parallelisms && wid == i
+//@     invariant [C11:one-worker-started-per-waitgroup-slot] startedG == i
 //@     invariant covered == min(index, len(entities))
 //@     invariant index == i * psize && psize >= 0 && parallelisms >= 1
 //@     invariant parallelisms * psize >= len(entities)
@@ -34,8 +36,11 @@ package jobs
 //@   at call copy#1 before
 //@     assert [chunk-contiguous] from == covered && from <= to && to <= len(entities)
 //@     ghost covered := to
+//@   at call sync$1$1#1 before
+//@     ghost startedG := startedG + 1
 //@   at call Wait#1 before
 //@     assert [all-covered] covered == len(entities)
+//@     assert [C11:wait-returns-because-every-slot-has-a-worker] startedG == parallelisms
 
 // ---------------------------------------------------------------------------
 // C11: the ticket raffle: one run per job id, pools never exceeded, slot always released
@@ -68,7 +73,7 @@ package jobs
 //@   ensures [pool-not-exceeded] r.ticketsFull >= 0 && r.ticketsIncr >= 0
 //@   ensures [others-untouched] forall k string :: k != job.id ==> (has(r.runningJobs, k) <==> old(has(r.runningJobs, k)))
 //@   ensures [lock-released] $held == old($held)
-//@   modifies $held, raffle.ticketsFull, raffle.ticketsIncr, map[string]*jobs.runState, runState.*, ticket.*, []string, []interface{}
+//@   modifies $held, $acq, raffle.ticketsFull, raffle.ticketsIncr, map[string]*jobs.runState, runState.*, ticket.*, []string, []interface{}
 
 //@ unit (*raffle).returnTicket
 //@   prop C11
@@ -79,7 +84,7 @@ package jobs
 //@     | && (!ticket.runState.isFull ==> r.ticketsIncr == old(r.ticketsIncr) + 1 && r.ticketsFull == old(r.ticketsFull))
 //@   ensures [others-untouched] forall k string :: k != ticket.runState.id ==> (has(r.runningJobs, k) <==> old(has(r.runningJobs, k)))
 //@   ensures [lock-released] $held == old($held)
-//@   modifies $held, raffle.ticketsFull, raffle.ticketsIncr, map[string]*jobs.runState, []string, []interface{}
+//@   modifies $held, $acq, raffle.ticketsFull, raffle.ticketsIncr, map[string]*jobs.runState, []string, []interface{}
 
 //@ unit (*raffle).runningJob
 //@   prop C11
@@ -87,7 +92,7 @@ package jobs
 //@   requires r != nil && !has($held, addrOf(r.runningMu))
 //@   ensures [lookup] has(r.runningJobs, jobid) ==> result == r.runningJobs[jobid]
 //@   ensures [lock-released] $held == old($held)
-//@   modifies $held
+//@   modifies $held, $acq
 
 //@ unit (*raffle).getRunningJobs
 //@   prop C11
@@ -95,7 +100,7 @@ package jobs
 //@   requires r != nil && !has($held, addrOf(r.runningMu))
 //@   ensures [snapshot-copy] result != r.runningJobs
 //@   ensures [lock-released] $held == old($held)
-//@   modifies $held, map[string]*jobs.runState
+//@   modifies $held, $acq, map[string]*jobs.runState
 //@   loop 1
 //@     invariant result != 0 && result != r.runningJobs
 
